@@ -7,5 +7,5 @@ Definition toy_init := init_state toycx toy0.
 Definition toy_decode := decode toycx toy_decomp.
 Definition toy_wants_pause := wants_pause toycx.
 
-Extraction "model.ml" keep toy_feed toy_init toy_decode toy_wants_pause rfc_profile aiohttp_profile known_quirks_profile
+Extraction "model.ml" keep toy_feed toy_init toy_decode toy_wants_pause rfc_profile aiohttp_profile
   utf8_valid toy_decomp toy0 max_fragments mkprofile rfc_close_ok inflated_too_big close_code_bad.
